@@ -4,6 +4,7 @@ import (
 	"encoding/json"
 
 	"github.com/zclconf/go-cty/cty"
+	"github.com/zclconf/go-cty/cty/function/stdlib"
 	ctyjson "github.com/zclconf/go-cty/cty/json"
 )
 
@@ -25,6 +26,36 @@ func driveC07(c *Ctx) error {
 	})
 	if err != nil {
 		return err
+	}
+	// Further physical representations of tuple types: types the library itself derives from an existing
+	// type and that share its element-type slice (the type predicted by stdlib slice for an unknown tuple
+	// is Tuple(elementTypes[0:k])).  They are appended as additional entries; their definitions are the
+	// projections of what was really built, so the trace spec judges them like any other type.
+	if c.Args["derived"] != "0" {
+		n0 := len(ts)
+		next := 0
+		for _, e := range ts {
+			if e.i > next {
+				next = e.i
+			}
+		}
+		for _, e := range ts[:n0] {
+			if !e.t.IsTupleType() {
+				continue
+			}
+			for k := 1; k <= e.t.Length(); k++ {
+				var dt cty.Type
+				var err error
+				p, _ := guard(func() {
+					dt, err = stdlib.SliceFunc.ReturnTypeForValues([]cty.Value{cty.UnknownVal(e.t), cty.NumberIntVal(0), cty.NumberIntVal(int64(k))})
+				})
+				if p || err != nil || !dt.IsTupleType() {
+					continue
+				}
+				next++
+				ts = append(ts, ent{next, dt})
+			}
+		}
 	}
 	for _, e := range ts {
 		c.Out.Emit(J{"ev": "tdef", "i": e.i, "t": ProjectType(e.t)})
